@@ -34,7 +34,9 @@ let op_of_json j =
   | [JStr "hide"; hs] -> OpHide (Stdlib.List.map jn (jlist hs))
   | [JStr "restore"; hs] -> OpRestore (Stdlib.List.map jn (jlist hs))
   | [JStr "setup"; now; sizes] -> OpSetup (jn now, Stdlib.List.map pair_of_json (jlist sizes))
+  | [JStr "recover"; sds; now] -> OpRecover (Stdlib.List.map jn (jlist sds), jn now)
   | JStr "status" :: _ -> OpStatus
+  | JStr "fault" :: _ -> OpStatus          (* a failed unrelated transaction: no effect on the database *)
   | _ -> raise (Model_error "op: expected [pass, net, limit] | [clean, cl, nl] | [add, blob] | [delete, ids] | [status, what]")
 let json_of_blob b = JArr [of_n b.b_hash; of_n b.b_len; of_n b.b_added; of_bool b.b_mine; of_bool b.b_fin]
 let json_of_row ((h, l), a) = JArr [of_n h; of_n l; of_n a]
@@ -68,5 +70,17 @@ let () = serve (fun fn req ->
   | "pass_old" ->
     let (dl, d') = clean_pass_old (jbool (jfield req "net")) (jz (jfield req "limit")) (db_of_json (jfield req "db")) in
     JObj ([ "deleted", of_list of_n dl ] @ observe d')
+  | "effective" ->
+    (* configuration layers: [args, env, file] optional integers, then a list of assignments [updating, value];
+       returns the limit in force after each assignment *)
+    let opt k = match jfield_opt req k with Some JNull | None -> None | Some v -> Some (jz v) in
+    let l = ref { l_runtime = None; l_args = opt "args"; l_env = opt "env"; l_file = opt "file" } in
+    let first = of_z (effective !l) in
+    let rest = Stdlib.List.map (fun a ->
+        (match jlist a with
+         | [u; v] -> l := assign (jbool u) (jz v) !l
+         | _ -> raise (Model_error "assignment: [updating, value]"));
+        of_z (effective !l)) (jlist (jfield req "sets")) in
+    JArr (first :: rest)
   | "cands" -> of_list json_of_row (cands (jbool (jfield req "net")) (db_of_json (jfield req "db")))
   | _ -> raise (Model_error ("unknown fn " ^ fn)))
